@@ -60,6 +60,24 @@ def _is_set_type(t) -> Optional[bool]:
 ORDER_KEEPING = {"list", "tuple", "iter", "reversed", "enumerate", "zip", "chain", "deque", "map", "filter", "islice"}
 
 
+def _keyed_sort(e: ast.AST) -> bool:
+    """sorted/min/max with a key that is not known to be injective (identity, or a tuple ending in the element)."""
+    if not (isinstance(e, ast.Call) and isinstance(e.func, ast.Name) and e.func.id in ("sorted", "min", "max") and e.args):
+        return False
+    ks = [k.value for k in e.keywords if k.arg == "key"]
+    if not ks or (isinstance(ks[0], ast.Constant) and ks[0].value is None):
+        return False
+    k = ks[0]
+    if isinstance(k, ast.Lambda) and len(k.args.args) == 1:
+        p = k.args.args[0].arg
+        b = k.body
+        if isinstance(b, ast.Name) and b.id == p:
+            return False
+        if isinstance(b, ast.Tuple) and any(isinstance(x, ast.Name) and x.id == p for x in b.elts):
+            return False
+    return True
+
+
 def hash_ordered(e: ast.AST, R: Resolver, f: Func, env, depth: int = 0):
     """Element type if iterating ``e`` visits elements in hash order (a set of non-ints, possibly passed through
     an order-keeping wrapper or a local assigned from one); None otherwise."""
@@ -73,6 +91,9 @@ def hash_ordered(e: ast.AST, R: Resolver, f: Func, env, depth: int = 0):
             r = hash_ordered(a, R, f, env, depth + 1)
             if r:
                 return r
+    if _keyed_sort(e):
+        # sorted(S, key=k) is stable: elements with equal keys stay in the order S yields them
+        return hash_ordered(e.args[0], R, f, env, depth + 1)
     if isinstance(e, (ast.ListComp, ast.GeneratorExp)) and e.generators:
         return hash_ordered(e.generators[0].iter, R, f, env, depth + 1)
     if isinstance(e, ast.Call) and isinstance(e.func, ast.Attribute) and e.func.attr in ("copy", "union", "intersection", "difference"):
@@ -84,7 +105,7 @@ def hash_ordered(e: ast.AST, R: Resolver, f: Func, env, depth: int = 0):
                 and isinstance(s_.targets[0], ast.Name) and s_.targets[0].id == e.id]
         for d in defs:
             if isinstance(d.value, ast.Call) and isinstance(d.value.func, ast.Name) and d.value.func.id in ORDER_KEEPING \
-                    or isinstance(d.value, (ast.ListComp, ast.GeneratorExp)):
+                    or isinstance(d.value, (ast.ListComp, ast.GeneratorExp)) or _keyed_sort(d.value):
                 r = hash_ordered(d.value, R, f, env, depth + 1)
                 if r:
                     return r
@@ -114,12 +135,19 @@ def set_iterations(ctx: Ctx, R: Resolver, funcs: List[Func]):
                 if isinstance(n, ast.comprehension):
                     comp = pm.get(id(n))
                     user = pm.get(id(comp))
-                    if isinstance(user, ast.Call) and call_name(user) in ORDER_FREE and isinstance(comp, (ast.GeneratorExp, ast.SetComp, ast.ListComp)):
+                    if isinstance(user, ast.Call) and call_name(user) in ORDER_FREE and isinstance(comp, (ast.GeneratorExp, ast.SetComp, ast.ListComp)) \
+                            and not _keyed_sort(user):
                         continue
                     if isinstance(comp, ast.SetComp):
                         continue
                     host = comp
                 out.append((f, host, it, t))
+        # a keyed min/max over a hash-ordered collection picks, among equal keys, the first one in hash order
+        for c in calls_in(f.node):
+            if _keyed_sort(c) and c.func.id in ("min", "max"):
+                t = hash_ordered(c.args[0], R, f, env)
+                if t:
+                    out.append((f, c, c.args[0], t))
     return out, n_iter
 
 
@@ -149,7 +177,7 @@ def r20_1(ctx: Ctx, R: Resolver):
                "no for-loop or comprehension iterates a hash-ordered set of non-integers", node=main.node)
     # positive fixture: the rule must still recognise the pattern it is looking for
     from ..fixtures import check_fixture
-    check_fixture(ctx, "R20.1", "set_iteration.py", lambda repo: len(set_iterations(ctx, Resolver(repo), list(repo.funcs.values()))[0]), expect_exact=2)
+    check_fixture(ctx, "R20.1", "set_iteration.py", lambda repo: len(set_iterations(ctx, Resolver(repo), list(repo.funcs.values()))[0]), expect_exact=3)
 
 
 def r20_2(ctx: Ctx, R: Resolver):
